@@ -316,7 +316,7 @@ func c15Run(path []c15Event) *c15World {
 }
 
 func TestVerifC15(t *testing.T) {
-	r := eng.Start("C15", "model_checking", 90*time.Second, 15*time.Minute)
+	r := eng.Start("C15", "model_checking", 300*time.Second, 15*time.Minute)
 	r.Assume("hold episode of (held, holder) = from the first accepted hold after a release (proceed), refusal, or refresh of the held snap, as the implementation's FirstHeld record defines it",
 		"bounds: 48h for other snaps, 90 days (95 days minus the 5-day buffer) after the held snap's last refresh for every gating snap",
 		"refresh(snap) is modelled as what the refresh path does: LastRefreshTime := now and resetGatingForRefreshed")
